@@ -50,6 +50,9 @@ def correspondence(ctx):
                 "EACH individual read position k = 1..reads+1 with 0,1,2,3 bytes delivered, and with an error accompanying a complete read. "
                 "Non-trivial = each distinct (case, chunking) and (case, fault position, delivered bytes).")
     bases = base_cases(ctx)
+    # "the same recipe fed the same source bytes makes the same choices" — also when another generation runs in between:
+    # deterministic interleavings (the second generation runs inside the first one's k-th read of the source)
+    chargen.run_interleave(ctx, chargen.interleave_cases(ctx, 12 if ctx.tier == "quick" else 150), "C09")
     # flat runs first: how many reads does each generation make
     flat_char = [(chargen.chargen_line(x[1], x[2], x[3] + [1, 2, 3]), {"base": i}) for i, x in enumerate(bases) if x[0] == "char"]
     res_char = chargen.compare_passwords(ctx, "chargen", flat_char)
